@@ -45,6 +45,7 @@ type RunConfig struct {
 	PStoreErr     float64 `json:"p_store_err,omitempty"`
 	Wire          bool    `json:"wire,omitempty"`
 	StarveOnly    bool    `json:"starve_only,omitempty"`
+	StaleForger   bool    `json:"stale_forger,omitempty"`
 	// persistent nodes may run with a backlog of undetermined events larger than their cache
 	BacklogOverCache bool    `json:"backlog_over_cache,omitempty"`
 	NilTx            bool    `json:"nil_tx"`
